@@ -532,10 +532,10 @@ func (n *BinaryNode) writeTo(buf *strings.Builder, _, withParens bool) {
 		}
 		buf.WriteRune(')')
 	case BinarySubscript:
-		n.left.writeTo(buf, false, false)
+		writeOperand(buf, n.left, operandParens(n.left, 0))
 		if n.right != nil {
 			buf.WriteString(" " + n.op.String() + " ")
-			n.right.writeTo(buf, false, false)
+			writeOperand(buf, n.right, operandParens(n.right, 0))
 		}
 	case BinaryAnd, BinaryOr, BinaryEqual, BinaryNotEqual, BinaryLess,
 		BinaryGreater, BinaryLessOrEqual, BinaryGreaterOrEqual,
@@ -545,9 +545,9 @@ func (n *BinaryNode) writeTo(buf *strings.Builder, _, withParens bool) {
 			buf.WriteRune('(')
 		}
 
-		n.left.writeTo(buf, false, n.left.priority() <= n.priority())
+		writeOperand(buf, n.left, operandParens(n.left, n.priority()))
 		buf.WriteString(" " + n.op.String() + " ")
-		n.right.writeTo(buf, false, n.right.priority() <= n.priority())
+		writeOperand(buf, n.right, operandParens(n.right, n.priority()))
 
 		if withParens {
 			buf.WriteRune(')')
@@ -616,10 +616,18 @@ func (n *UnaryNode) priority() uint8 { return n.op.priority() }
 // expression to buf. If withParens is true and the binary operation is
 // UnaryPlus or UnaryMinus, parentheses will be written around the expression.
 func (n *UnaryNode) writeTo(buf *strings.Builder, _, withParens bool) {
+	n.writeSelf(buf, withParens)
+	if next := n.Next(); next != nil {
+		next.writeTo(buf, true, true)
+	}
+}
+
+// writeSelf writes n without the nodes that follow it.
+func (n *UnaryNode) writeSelf(buf *strings.Builder, withParens bool) {
 	switch n.op {
 	case UnaryExists:
 		buf.WriteString("exists (")
-		n.operand.writeTo(buf, false, false)
+		writeOperand(buf, n.operand, operandParens(n.operand, 0))
 		buf.WriteRune(')')
 	case UnaryNot, UnaryFilter:
 		buf.WriteString(n.op.String())
@@ -636,7 +644,7 @@ func (n *UnaryNode) writeTo(buf *strings.Builder, _, withParens bool) {
 		}
 
 		buf.WriteString(n.op.String())
-		n.operand.writeTo(buf, false, n.operand.priority() <= n.priority())
+		writeOperand(buf, n.operand, operandParens(n.operand, n.priority()))
 
 		if withParens {
 			buf.WriteRune(')')
@@ -649,9 +657,6 @@ func (n *UnaryNode) writeTo(buf *strings.Builder, _, withParens bool) {
 		}
 	default:
 		// Write nothing.
-	}
-	if next := n.Next(); next != nil {
-		next.writeTo(buf, true, true)
 	}
 }
 
@@ -873,7 +878,7 @@ func (n *RegexNode) writeTo(buf *strings.Builder, _, withParens bool) {
 		buf.WriteRune('(')
 	}
 
-	n.operand.writeTo(buf, false, n.operand.priority() <= n.priority())
+	writeOperand(buf, n.operand, operandParens(n.operand, n.priority()))
 	fmt.Fprintf(buf, " like_regex %q%v", n.pattern, n.flags)
 
 	if withParens {
@@ -939,7 +944,7 @@ func (a *AST) String() string {
 	if !a.lax {
 		buf.WriteString("strict ")
 	}
-	a.root.writeTo(buf, false, true)
+	writeOperand(buf, a.root, true)
 	return buf.String()
 }
 
@@ -1056,4 +1061,50 @@ func negateLiteral(literal string) string {
 		return literal[1:]
 	}
 	return "-" + literal
+}
+
+// operandParens reports whether operand must be written in parentheses as an
+// operand of an operator with the given priority: when it binds less tightly,
+// and when it is an operator expression that carries accessors, since
+// accessors apply to a whole expression only when it is parenthesised.
+func operandParens(operand Node, priority uint8) bool {
+	if operand.priority() <= priority {
+		return true
+	}
+	if operand.Next() == nil {
+		return false
+	}
+	switch operand := operand.(type) {
+	case *BinaryNode:
+		return operand.op != BinaryDecimal && operand.op != BinarySubscript
+	case *RegexNode:
+		return true
+	case *UnaryNode:
+		switch operand.op {
+		case UnaryExists, UnaryNot, UnaryIsUnknown, UnaryPlus, UnaryMinus:
+			return true
+		default:
+			return false
+		}
+	}
+	return false
+}
+
+// writeOperand writes operand, in parentheses when withParens is true. The
+// predicates exists, ! and is unknown do not parenthesise themselves, so when
+// one of them carries accessors the parentheses are written here, around the
+// predicate and before its accessors.
+func writeOperand(buf *strings.Builder, operand Node, withParens bool) {
+	if unary, ok := operand.(*UnaryNode); ok && withParens && unary.next != nil {
+		switch unary.op {
+		case UnaryExists, UnaryNot, UnaryIsUnknown:
+			buf.WriteRune('(')
+			unary.writeSelf(buf, false)
+			buf.WriteRune(')')
+			unary.next.writeTo(buf, true, true)
+			return
+		default:
+		}
+	}
+	operand.writeTo(buf, false, withParens)
 }
